@@ -321,7 +321,7 @@ var propLife = hx.Prop[LCase]{
 	Quick: 12, Thorough: 40,
 	Gen: func(t *rapid.T) LCase {
 		return LCase{Backend: rapid.SampledFrom([]string{"mem", "file"}).Draw(t, "backend"),
-			Mode: rapid.SampledFrom([]string{"zero", "cancel-wait", "cancel-scan", "cancel-scan"}).Draw(t, "mode"), DelayMs: rapid.IntRange(0, 40).Draw(t, "delay")}
+			Mode: rapid.SampledFrom([]string{"zero", "cancel-wait", "cancel-scan", "cancel-scan", "cancel-mid", "cancel-mid"}).Draw(t, "mode"), DelayMs: rapid.IntRange(0, 40).Draw(t, "delay")}
 	},
 	Run: func(c LCase) *hx.Outcome {
 		o := &hx.Outcome{}
@@ -383,6 +383,49 @@ var propLife = hx.Prop[LCase]{
 			time.Sleep(time.Duration(c.DelayMs) * time.Millisecond)
 			cancel()
 			within("DoScan after cancel (30 s inter-mailbox sleep configured)", 2*time.Second, func() { <-done })
+		case "cancel-mid":
+			// shutdown arrives while the scan is inside its first mailbox (default pause): it may
+			// finish that mailbox, but must not go on to others - in particular not to the mailboxes
+			// stored next to it (same first hash digits)
+			o.NonTrivial = true
+			names := append(append([]string{}, hx.Siblings()...), hx.Bucket6()...)
+			for _, n := range names {
+				_, _ = st.AddMessage(hx.NewDelivery(n, nil, nil, time.Now().Add(-1000*time.Hour), "old", []byte("x")))
+			}
+			names = append(names, "b0", "b1", "b2")
+			// the moment: the walk arrives at the first of the sibling mailboxes
+			sib := map[string]bool{}
+			for _, n := range hx.Siblings() {
+				sib[n] = true
+				sib[stringutil.HashMailboxName(n)] = true
+			}
+			var once sync.Once
+			var begun, begunAtCancel atomic.Int32 // mailboxes the scan has begun to work on
+			verifhook.SetYield(func(point string) {
+				if strings.HasPrefix(point, "retention.scan.mailbox") {
+					begun.Add(1)
+				}
+				if f := strings.Fields(point); len(f) == 2 && (f[0] == "file.visit.mailbox" || f[0] == "mem.visit.mailbox") && sib[f[1]] {
+					once.Do(func() { begunAtCancel.Store(begun.Load()); cancel() })
+				}
+			})
+			// (the default pause of 50 ms: with no pause at all the scanner's select between "cancelled"
+			// and "pause over" is a coin toss per mailbox, which is prompt enough but not exact)
+			rs := storage.NewRetentionScanner(config.Storage{RetentionPeriod: time.Hour, RetentionSleep: 50 * time.Millisecond}, st)
+			ok := within("DoScan cancelled inside its first mailbox", 2*time.Second, func() { _ = rs.DoScan(ctx) })
+			verifhook.SetYield(nil)
+			if !ok {
+				return o
+			}
+			var emptied []string
+			for _, n := range names {
+				if ms, _ := st.GetMessages(n); len(ms) == 0 {
+					emptied = append(emptied, n)
+				}
+			}
+			if allowed := int(begunAtCancel.Load()) + 1; len(emptied) > allowed {
+				o.Failf(pid+":scan-goes-on-after-shutdown", "[%s] shutdown was requested when the scan had worked on %d mailboxes and was arriving at the next; it may finish that one, yet %d mailboxes were emptied: %v", c.Backend, allowed-1, len(emptied), emptied)
+			}
 		}
 		return o
 	},
